@@ -203,7 +203,7 @@ def gen_case(params):
             rows.append(row); rid += 1
         calls.append(rows)
     p["calls"] = calls
-    p["seed"] = rng.randint(0, 10**6)
+    p["seed"] = rng.choice([0, 0, 1]) if rng.random() < .12 else rng.randint(0, 10**6)      # 0 is a legal seed (and falsy)
     return p
 
 def fill_params(cell, rng):
@@ -589,6 +589,15 @@ def _evaluate_e2e(spec, note):
         SafeLearner.predict = SafeLearner._vf_plain_predict
     if len(got) != len(script):
         return [("e2e:rows", f"{len(script)} interactions, {len(got)} result rows")]
+    if fmt in ("pmf", "h_pmf") and any(sum(1 for x in make_pmf(spec["pmf"], r["w"]) if x > 0) > 1 for r, _ in script):
+        # PMF draws are a function of the evaluator's seed: a second evaluation with the same seed records the same actions
+        import time as _t
+        note("e2e.pmf.same-seed")
+        _t.sleep(.002)
+        again = list(SequentialCB(record=["action", "probability", "reward"], seed=spec["seed"]).evaluate(_Env(inter), Scripted(sub)))
+        if canon([g.get("action") for g in again]) != canon([g.get("action") for g in got]):
+            return [("e2e:pmf-not-reproducible-from-evaluator-seed" + ("/seed=0" if spec["seed"] == 0 else ""),
+                     f"SequentialCB(seed={spec['seed']}) recorded {[g.get('action') for g in got]!r} and then {[g.get('action') for g in again]!r}")]
     for i, (g, (r, acts)) in enumerate(zip(got, script)):
         note("e2e.rows")
         j = _index_of(g.get("action"), acts)
